@@ -471,6 +471,14 @@ def oracle(case, res, dump):
                 if e["why"] != "ok" or e["round"] <= e["ha"] or e["idx"] == own:
                     continue
                 # the partial went into `to`'s aggregator while `to` had stored `ha` >= tr-1 of `want`
+                if want["id"] not in e["valid"] and want["id"] != 0 and e["ha"] == want["tr"] - 1 and e["round"] == want["tr"] \
+                        and any(x["id"] in e["valid"] for x in epochs if x["id"] < want["id"]):
+                    # the vault is switched by the store's callback worker right AFTER transition-1 is stored: a partial of the
+                    # previous epoch for the transition round that is verified in between is cached under the old polynomial.
+                    # It cannot count (Recover runs under the new polynomial, and the member that holds the index replaces it
+                    # with its own partial); whether it counts or blocks the round is what R.count and R.live judge. Seen on
+                    # the unchanged tree in the thorough tier (seed 2, family stale-partial, chained scheme): not a violation.
+                    continue
                 if want["id"] not in e["valid"]:
                     flag("R.old-share" + cls, f"node {to} (head {e['ha']}, group of epoch {want['id']} in force from round {want['tr']}) let in a partial of index {e['idx']} "
                                               f"for round {e['round']} sent by node {e['from']} that verifies only under the polynomial of epoch(s) {e['valid']}")
